@@ -142,11 +142,20 @@ fn run_lib(case: &str, o: &Opts, drv: &mut Driver, rep: &mut Report) {
         let s_matched: u64 = field_word(&counts, "matched").and_then(|x| x.parse().ok()).unwrap_or(u64::MAX);
         let s_sub: u64 = field_word(&counts, "submatches").and_then(|x| x.parse().ok()).unwrap_or(u64::MAX);
         let s_per: Vec<u64> = field(&counts, "per").unwrap_or("").split(' ').filter_map(|x| x.parse().ok()).collect();
+        let s_guard: Vec<u64> = field(&counts, "guard")
+            .and_then(|g| g.split(';').next())
+            .unwrap_or("")
+            .split(' ')
+            .filter_map(|x| x.parse().ok())
+            .collect();
 
         // ---- Summary sinks
         let mut sum_out: BTreeMap<String, Vec<u8>> = BTreeMap::new();
         let mut sum_has: BTreeMap<String, bool> = BTreeMap::new();
         let mut sum_stats: BTreeMap<String, Option<(u64, u64)>> = BTreeMap::new();
+        // the model's own answers (for model-vs-spec)
+        let mut model_count: Option<u64> = None;
+        let mut model_cm: Option<u64> = None;
         for (kname, kind) in KINDS.iter() {
             for stats in [false, true] {
                 let mut printer = SummaryBuilder::new()
@@ -218,6 +227,12 @@ fn run_lib(case: &str, o: &Opts, drv: &mut Driver, rep: &mut Report) {
                         case,
                         format!("file {} kind {}: implementation consumed {} events, model {}", i, key, trace.evs.len(), m_consumed),
                     );
+                }
+                if key == "count" {
+                    model_count = field_word(&reply, "mc").and_then(|x| x.parse().ok());
+                }
+                if key == "countmatches" {
+                    model_cm = m_stats.rsplit("matches ").next().and_then(|x| x.trim_end_matches(')').parse().ok());
                 }
                 rep.branch(&format!("sum:{}", key));
                 sum_out.insert(key.clone(), out);
@@ -322,7 +337,7 @@ fn run_lib(case: &str, o: &Opts, drv: &mut Driver, rep: &mut Report) {
         let json_subs: u64 = json_matches.iter().map(|m| m["data"]["submatches"].as_array().map_or(0, |a| a.len()) as u64).sum();
         let tie_rel = "relations between the outputs of the reporting modes (property C10)";
         let f1 = !ml && f1_input(o, &matcher, input);
-        let mut fail = |rep: &mut Report, class: &str, d: String| {
+        let fail = |rep: &mut Report, class: &str, d: String| {
             viol(rep, "impl_vs_spec", class, tie_rel, case, format!("file {} ({:?}): {}", i, show(input), d));
         };
         // R1: --count = number of matching lines standard mode prints
@@ -373,13 +388,13 @@ fn run_lib(case: &str, o: &Opts, drv: &mut Driver, rep: &mut Report) {
         }
         // model vs spec: the counts the theorems speak about (no limit, single-line: every event is consumed)
         if !ml && o.max.is_none() {
-            if count != s_matched {
-                viol(rep, "model_vs_spec", "", "theorem count_eq_lines", case, format!("file {}: count {} spec matchedCount {}", i, count, s_matched));
+            if model_count != Some(s_matched) {
+                viol(rep, "model_vs_spec", "", "theorem count_eq_lines", case, format!("file {}: model count {:?} spec matchedCount {}", i, model_count, s_matched));
             }
-            if !o.invert && count_matches != s_sub {
-                viol(rep, "model_vs_spec", "", "theorem countmatches_eq_o_eq_json", case, format!("file {}: count-matches {} spec subMatchTotal {}", i, count_matches, s_sub));
+            if !o.invert && model_cm != Some(s_sub) {
+                viol(rep, "model_vs_spec", "", "theorem countmatches_eq_o_eq_json", case, format!("file {}: model count-matches {:?} spec subMatchTotal {}", i, model_cm, s_sub));
             }
-            if !o.invert && s_per.iter().any(|&n| n == 0) {
+            if !o.invert && s_per.iter().zip(s_guard.iter()).any(|(&n, &g)| n == 0 && g == 1) {
                 viol(rep, "model_vs_spec", "", "theorem matched_has_submatch", case, format!("file {}: per-event submatch counts {:?}", i, s_per));
             }
         }
@@ -408,6 +423,10 @@ fn base_args(o: &Opts) -> Vec<String> {
     if let Some(m) = o.max {
         a.push(format!("-m{}", m));
     }
+    // half of the cases go through the single-threaded `search`, half through `search_parallel`
+    if fnv(o.pat.as_bytes()) % 2 == 0 {
+        a.push("-j1".into());
+    }
     a
 }
 
@@ -420,9 +439,9 @@ struct Run {
 fn rg(rgbin: &std::path::Path, dir: &std::path::Path, o: &Opts, extra: &[&str]) -> Option<Run> {
     let mut cmd = std::process::Command::new(rgbin);
     cmd.current_dir(dir).args(base_args(o)).args(extra).arg("-e").arg(&o.pat).arg("d0").arg("d1");
-    let out = cmd.output().ok()?;
+    let out = run_with_timeout(&mut cmd, &dir.join(".out"), 20)?;
     let stderr = String::from_utf8_lossy(&out.stderr);
-    Some(Run { stdout: out.stdout, code: out.status.code().unwrap_or(-1), panicked: stderr.contains("panicked") })
+    Some(Run { stdout: out.stdout, code: out.code, panicked: stderr.contains("panicked") || out.timed_out })
 }
 
 /// `path\0rest\n` records -> rest per path
@@ -485,6 +504,7 @@ fn run_cli(case: &str, o: &Opts, args: &Args, drv: &mut Driver, rep: &mut Report
         sizes.insert(p, input.len());
     }
     rep.branch(if ml { "cli:multi-line" } else { "cli:single-line" });
+    rep.branch(if fnv(o.pat.as_bytes()) % 2 == 0 { "cli:single-threaded" } else { "cli:parallel" });
     let run = |extra: &[&str]| rg(&rgbin, &dir, o, extra);
     let (std_r, o_r, c_r, cm_r, l_r, bl_r, q_r, j_r, st_r) = match (
         run(&["-H", "--no-heading", "--null", "-N"]),
@@ -579,7 +599,7 @@ fn run_cli(case: &str, o: &Opts, args: &Args, drv: &mut Driver, rep: &mut Report
         }
     }
     let f1 = !ml && o.files.iter().any(|f| f1_input(o, &matcher, f));
-    let mut fail = |rep: &mut Report, class: &str, d: String| viol(rep, "impl_vs_spec", class, tie_rel, case, d);
+    let fail = |rep: &mut Report, class: &str, d: String| viol(rep, "impl_vs_spec", class, tie_rel, case, d);
     let inv_class = "";
     let mut any_count = false;
     for p in &all {
